@@ -1251,6 +1251,14 @@ void reb_integrator_whfast_part2(struct reb_simulation* const r){
         if (ri_whfast->keep_unsynchronized){
             memcpy(p_j,sync_pj,r->N*sizeof(struct reb_particle));
             free(sync_pj);
+            // The centre of mass of each set of variational particles was advanced to the end 
+            // of the timestep above. Keep that (part1 only does the first half).
+            for (int v=0;v<r->N_var_config;v++){
+                const int index = r->var_config[v].index;
+                p_j[index].x += r->dt/2.*p_j[index].vx;
+                p_j[index].y += r->dt/2.*p_j[index].vy;
+                p_j[index].z += r->dt/2.*p_j[index].vz;
+            }
             ri_whfast->is_synchronized=0;
         }
     }
